@@ -1,0 +1,126 @@
+//go:build verif
+// +build verif
+
+// Verification hook for the block store check (add-only, compiled only with -tags verif): lets an
+// external harness run the block chain alone (no group chain, no network, no sync processor) on the
+// stores of the current working directory, reach insertBlock / remove / ensureChainConsistency, put a
+// recording wrapper around the three index stores, and re-run the chain initialisation ("restart").
+// Nothing here changes the behaviour of the code under test; every function only calls it.
+package core
+
+import (
+	"strconv"
+
+	"com.tuntun.rangers/node/src/common"
+	"com.tuntun.rangers/node/src/middleware"
+	"com.tuntun.rangers/node/src/middleware/db"
+	"com.tuntun.rangers/node/src/middleware/log"
+	"com.tuntun.rangers/node/src/middleware/types"
+	lru "github.com/hashicorp/golang-lru"
+)
+
+// VerifBCInit sets the loggers and the consensus helper that InitCore would set and runs
+// initBlockChain() on storage<instance>/ of the working directory. Result: core.GetBlockChain().
+func VerifBCInit(helper types.ConsensusHelper) error {
+	idx := strconv.Itoa(common.InstanceIndex)
+	if logger == nil {
+		logger = log.GetLoggerByIndex(log.CoreLogConfig, idx)
+	}
+	if txLogger == nil {
+		txLogger = log.GetLoggerByIndex(log.TxLogConfig, idx)
+	}
+	if syncLogger == nil {
+		syncLogger = log.GetLoggerByIndex(log.SyncLogConfig, idx)
+	}
+	if syncHandleLogger == nil {
+		syncHandleLogger = log.GetLoggerByIndex(log.SyncHandleLogConfig, idx)
+	}
+	if rewardLog == nil {
+		rewardLog = log.GetLoggerByIndex(log.RewardLogConfig, idx)
+	}
+	consensusHelper = helper
+	blockChainImpl = nil
+	return initBlockChain()
+}
+
+// VerifBCRestart forgets the in-memory chain object (head, caches) and runs initBlockChain() again on
+// the same stores, as a process start would (the shared LevelDB instance stays open).
+func VerifBCRestart() error {
+	blockChainImpl = nil
+	return initBlockChain()
+}
+
+// VerifBCWrapStores replaces the three index stores of the running chain by wrap(prefix, store).
+func VerifBCWrapStores(wrap func(prefix string, d db.Database) db.Database) {
+	c := blockChainImpl
+	c.hashDB = wrap(hashDBPrefix, c.hashDB)
+	c.heightDB = wrap(heightDBPrefix, c.heightDB)
+	c.verifyHashDB = wrap(verifyHashDBPrefix, c.verifyHashDB)
+}
+
+// VerifBCInsert / VerifBCRemove call the unexported insertBlock / remove under the chain lock.
+func VerifBCInsert(b *types.Block) types.AddBlockResult {
+	middleware.LockBlockchain("verif insert")
+	defer middleware.UnLockBlockchain("verif insert")
+	r, _ := blockChainImpl.insertBlock(b)
+	return r
+}
+
+func VerifBCRemove(b *types.Block) bool {
+	middleware.LockBlockchain("verif remove")
+	defer middleware.UnLockBlockchain("verif remove")
+	return blockChainImpl.remove(b)
+}
+
+// VerifBCMarks reports whether the add / remove intent marks are present in the hash store.
+func VerifBCMarks() (bool, bool) {
+	a, _ := blockChainImpl.hashDB.Get([]byte(addBlockMark))
+	r, _ := blockChainImpl.hashDB.Get([]byte(removeBlockMark))
+	return a != nil, r != nil
+}
+
+// VerifBCHeightHeader reads the height index (cache = the chain's own topBlocks cache first).
+func VerifBCHeightHeader(height uint64, cache bool) *types.BlockHeader {
+	return blockChainImpl.QueryBlockHeaderByHeight(height, cache)
+}
+
+// VerifBCRepairOnly runs the real ensureChainConsistency() the way initBlockChain does (head record
+// loaded first), but on stores wrapped by wrap, so that a harness can record the writes of the repair
+// and cut it short. It does not install the chain object; follow it by VerifBCRestart.
+func VerifBCRepairOnly(wrap func(prefix string, d db.Database) db.Database) {
+	chain := &blockChain{}
+	chain.transactionPool = blockChainImpl.transactionPool
+	chain.topBlocks, _ = lru.New(100)
+	chain.futureBlocks, _ = lru.New(topBlocksCacheSize)
+	chain.verifiedBlocks, _ = lru.New(20)
+	chain.verifiedBodyCache, _ = lru.New(10)
+	h, _ := db.NewDatabase(hashDBPrefix)
+	t, _ := db.NewDatabase(heightDBPrefix)
+	v, _ := db.NewDatabase(verifyHashDBPrefix)
+	chain.hashDB, chain.heightDB, chain.verifyHashDB = wrap(hashDBPrefix, h), wrap(heightDBPrefix, t), wrap(verifyHashDBPrefix, v)
+	chain.latestBlock = chain.QueryBlockHeaderByHeight([]byte(latestBlockKey), false)
+	if chain.latestBlock != nil {
+		chain.ensureChainConsistency()
+	}
+}
+
+// VerifBCExecute runs the block executor ("fullverify", as checkStates does) for the given block on the
+// state at preRoot and returns the resulting state root and receipts root; with commit it also commits
+// the state to the state store (so that a child block can be built on it).
+func VerifBCExecute(preRoot common.Hash, block *types.Block, commit bool) (common.Hash, common.Hash, error) {
+	state, err := middleware.AccountDBManagerInstance.GetAccountDBByHash(preRoot)
+	if err != nil {
+		return common.Hash{}, common.Hash{}, err
+	}
+	root, _, _, receipts := newVMExecutor(state, block, "fullverify").Execute()
+	if commit {
+		r, err := state.Commit(true)
+		if err != nil {
+			return root, common.Hash{}, err
+		}
+		if err = middleware.AccountDBManagerInstance.GetTrieDB().Commit(r, false); err != nil {
+			return root, common.Hash{}, err
+		}
+	}
+	return root, calcReceiptsTree(receipts), nil
+}
